@@ -144,6 +144,14 @@ package domain
 //@   requires fc != nil
 //@   ensures res <==> (len(fc.Include) == 0 && len(fc.Exclude) == 0)
 
+//@ func validatePattern
+//@   property C10
+//@   safety
+//@ func (fc *FilterConfig) Validate
+//@   property C10
+//@   safety
+//@   requires fc != nil
+
 //@ func (fc *FilterConfig) HasIncludeAll
 //@   property C10
 //@   requires fc != nil && len(fc.Include) < 1000000
@@ -163,10 +171,15 @@ package domain
 //@ interface PlatformProfile.GetModelDiscoveryURL
 
 // registry updates as seen by the discovery service (C20): regCalls counts every RegisterModels* call
+// regModels / regURL: the listing and the endpoint of the last such call (C10: what discovery hands over)
 //@ ghost var regCalls int
-//@ interface ModelRegistry.RegisterModels
-//@   modifies gvar regCalls
+//@ ghost var regModels []*ModelInfo
+//@ ghost var regURL string
+//@ interface ModelRegistry.RegisterModels(ctx, endpointURL, models)
+//@   modifies gvar regCalls, gvar regModels, gvar regURL
 //@   records regCalls = old(regCalls) + 1
+//@   records regModels = models
+//@   records regURL = endpointURL
 
 // a metrics record taken from a backend's response holds finite numbers only
 //@ spec func finiteMetrics(m *ProviderMetrics) bool = !isNaN(m.TokensPerSecond) && !isInf(m.TokensPerSecond)
